@@ -238,7 +238,8 @@ def definitions(draw, version, used):
             used.add(node.long)
             content.insert(draw(st.integers(0, len(content))),
                            make_tag(f"{node.short}/#", tag_id(node, "#"), node=node.long, kind="placeholder"))
-            if draw(st.integers(0, 2)) == 0:
+            if draw(st.integers(0, 2)) == 0 and pl.m.node_value_classes(node) in (["nameClass"], ["numericClass"]):
+                # (only value classes in which def_value_for can always step aside by inserting a digit)
                 # a sibling on the same node with a fixed value: once '#' is filled in, the two tags may sort either way
                 v0, _ = value_for(draw, node, pl)
                 content.insert(draw(st.integers(0, len(content))),
